@@ -33,8 +33,22 @@ enum Flavour {
     Tu,
     TString,
     TDisplay,
+    /// `t_format!(ctx, value, formatter: number)` kept as a view (its text does not depend on the key)
+    TFormat,
+    TuFormat,
+    /// the closure returned by `t_plural!{ ctx, count = || 0, one => .., _ => .. }`
+    TPlural,
 }
-const FLAVOURS: [Flavour; 4] = [Flavour::T, Flavour::Tu, Flavour::TString, Flavour::TDisplay];
+const FLAVOURS: [Flavour; 7] = [Flavour::T, Flavour::Tu, Flavour::TString, Flavour::TDisplay, Flavour::TFormat, Flavour::TuFormat, Flavour::TPlural];
+
+/// what the key-independent accessor flavours show for a locale (explicit-locale variants of the same macros)
+fn flavour_expected(l: Locale, fl: Flavour) -> Option<String> {
+    match fl {
+        Flavour::TFormat | Flavour::TuFormat => Some(leptos_i18n::formatting::td_format_string!(l, 1234567.5f64, formatter: number)),
+        Flavour::TPlural => Some(leptos_i18n::td_plural! { l, count = || 0u64, one => "one", _ => "other" }.to_string()),
+        _ => None,
+    }
+}
 
 #[derive(Clone, Copy, Debug, PartialEq, Eq)]
 enum SubHow {
@@ -109,7 +123,7 @@ fn gen_history(t: &mut Tape, max_len: usize) -> Vec<Op> {
                     _ => SubHow::Provider,
                 },
             },
-            6 => Op::MakeAccessor { view: pick(1, 12), flavour: FLAVOURS[pick(2, 4)], key: pick(3, 6) },
+            6 => Op::MakeAccessor { view: pick(1, 12), flavour: FLAVOURS[pick(2, 7)], key: pick(3, 6) },
             _ => Op::Tick,
         };
         ops.push(op);
@@ -152,6 +166,18 @@ macro_rules! flavours {
             }
             Flavour::TString => Box::new(move || t_string!($i18n, $($path)* $(, $arg = $val)*).to_string()),
             Flavour::TDisplay => Box::new(move || t_display!($i18n, $($path)* $(, $arg = $val)*).to_string()),
+            Flavour::TFormat => {
+                let a = leptos_i18n::formatting::t_format!($i18n, || 1234567.5f64, formatter: number);
+                Box::new(move || a.clone().to_html())
+            }
+            Flavour::TuFormat => {
+                let a = leptos_i18n::formatting::tu_format!($i18n, || 1234567.5f64, formatter: number);
+                Box::new(move || a.clone().to_html())
+            }
+            Flavour::TPlural => {
+                let f = leptos_i18n::t_plural! { $i18n, count = || 0u64, one => "one", _ => "other" };
+                Box::new(move || f().to_string())
+            }
         };
         ($key, r)
     }};
@@ -384,7 +410,7 @@ fn check_world(w: &World, s: &StepCtx) -> Result<u64, Failure> {
         }
     }
     for (ai, a) in w.accessors.iter().enumerate() {
-        let want = expected_text(w.nodes[a.ctx].cell, a.key);
+        let want = flavour_expected(w.nodes[a.ctx].cell, a.flavour).unwrap_or_else(|| expected_text(w.nodes[a.ctx].cell, a.key));
         let got = normalise(&(a.render)());
         obs += 1;
         if got != want {
@@ -393,6 +419,9 @@ fn check_world(w: &World, s: &StepCtx) -> Result<u64, Failure> {
                 Flavour::Tu => "tu!",
                 Flavour::TString => "t_string!",
                 Flavour::TDisplay => "t_display!",
+                Flavour::TFormat => "t_format!",
+                Flavour::TuFormat => "tu_format!",
+                Flavour::TPlural => "t_plural!",
             };
             return Err(fail(
                 thing,
